@@ -1014,12 +1014,10 @@ def decode_months(data: int) -> str | None:
     if data <= 0 or data == 0x0fff:
         return None
     bits = bin(data)[2:]
-    monthnames = list(MONTH_NAMES)
     months = ""
-    for each in bits[::-1]:
+    for each, monthname in zip(bits[::-1], MONTH_NAMES):
         if each == '1':
             if len(months) > 0:
                 months += ","
-            months += monthnames[0]
-        monthnames.pop(0)
+            months += monthname
     return months
